@@ -28,7 +28,7 @@ ASSUMPTIONS = [
     "R3 linearises synaptic currents with the library's secant (pre and post voltage shifted together by 1e-3 mV)",
     "agreement tolerance 1e-6 mV + 1e-8 relative over <=12 steps; order/alone comparisons 1e-9 mV",
     "a backend that refuses the network is a counted refusal and the case is judged with jax.sparse",
-    "CaT is not placed here (open finding N6 is C04's business)",
+    "CaT is not placed here (its kinetics are C04's business)",
 ]
 TECHNIQUE = "property-based testing (Hypothesis): reference simulator + metamorphic (creation order) + differential (zero conductance vs cells alone)"
 LEVEL_TEXT = (
